@@ -60,7 +60,30 @@ def make_call(ad, entry, payload):
     raise ValueError(entry)
 
 
+class _Null(logging.Handler):
+    def emit(self, record):
+        try:
+            record.getMessage()  # format the message as a real handler would
+        except Exception:  # noqa: BLE001 - real handlers route formatting errors to Handler.handleError(), they never propagate
+            pass
+
+
+_root = logging.getLogger()
+_root.addHandler(_Null())
+
+
 def oracle(case) -> Info:
+    tag, payload, prime, entry, mem = case[0], case[1], case[2], case[3], case[4]
+    debug_logging = (len(payload) + prime) % 2 == 0
+    logging.disable(logging.NOTSET if debug_logging else logging.CRITICAL)
+    _root.setLevel(logging.DEBUG if debug_logging else logging.WARNING)
+    try:
+        return _oracle(case)
+    finally:
+        logging.disable(logging.CRITICAL)
+
+
+def _oracle(case) -> Info:
     tag, payload, prime, entry, mem = case[0], case[1], case[2], case[3], case[4]
     n = len(payload)
     ad = primed(prime)
@@ -243,6 +266,8 @@ def build() -> Check:
     return Check(
         pid="C15",
         level="exploration",
+        hang_is_violation=True,
+        hang_limit_s=120.0,
         rule=(
             "inputs: random bytes; truncations and 1..5 structured mutations (COSEM type tag replaced by another tag, length/count octet +-1 or "
             "set, OBIS octet changed, date-time octet set to 0xFF, insert/delete/overwrite) of every genuine message of the pool (33 "
@@ -258,6 +283,8 @@ def build() -> Check:
             "executions are counted in evaluations but not in distinct_nontrivial."
         ),
         assumptions=[
+            "A call that never returns inside non-interruptible C code (e.g. catastrophic regular-expression backtracking) is detected by the runner's heartbeat: the worker is killed after 120 s without progress and the in-flight case is reported as a violation (sig hang).",
+            "Half of the cases run with the library's DEBUG logging enabled (a handler that formats every record), half with logging disabled: arguments of log calls are evaluated only when logging is on.",
             "Budgets are deterministic counters, not wall-clock; a 30 s SIGALRM backstop only marks a case inconclusive (class INCONCLUSIVE-30s-backstop).",
             "Measured need on genuine messages: <= 64 calls and <= 13 line events per input byte; the budgets leave > x40 headroom.",
             "Time spent inside C code (regular expressions, int(), Decimal) is not counted by the event budgets; it is bounded separately by a CPU-time budget of 0.75 s + 2 ms/byte (process_time, ~150x the normal need), reported only if a second run of the same call exceeds it too.",
